@@ -253,7 +253,7 @@ func (x *Exec) frameObligations(st *State, env *Env) {
 
 // ---------- events ----------
 
-var observable = map[string]bool{"send": true, "sendmsg": true, "callfn": true, "chansend": true, "close": true, "WriteHeader": true, "ServeHTTP": true, "PostReceipt": true}
+var observable = map[string]bool{"send": true, "sendmsg": true, "callfn": true, "chansend": true, "close": true, "WriteHeader": true, "ServeHTTP": true, "PostReceipt": true, "timer_reset": true, "GaugeInc": true, "GaugeDec": true}
 
 func (x *Exec) isObservable(e Event) bool {
 	if observable[e.Kind] {
@@ -335,6 +335,11 @@ func (x *Exec) matchEmitsLoop(st *State, env *Env, pats []EventPat, ord int, fro
 		}
 		if pats[pi].Cond == nil {
 			rec(pi+1, append(append([]int(nil), chosen...), pi), cs)
+			return
+		}
+		if pats[pi].Maybe {
+			rec(pi+1, append(append([]int(nil), chosen...), pi), cs)
+			rec(pi+1, chosen, cs)
 			return
 		}
 		if pats[pi].AtLeast {
@@ -749,8 +754,16 @@ func (x *Exec) loopBackEdge(st *State, li *loopInfo, from *ssa.BasicBlock) {
 		st.oblige(fmt.Sprintf("inv-pres:loop%d/%d", li.ord, inv.N), x.tagsFor(inv.Tags, x.spec.Tags), env.evalBool(inv.X), "loop invariant preserved: "+inv.Text)
 	}
 	if ls.HasEmits {
-		g, why := x.matchEmitsLoop(st, env, ls.Emits, li.ord, st.loopEvStart[li.ord])
-		x.obligeEmits(st, fmt.Sprintf("emits:loop%d", li.ord), x.tagsFor(ls.EmitTags, x.spec.Tags), TTrue, g, why)
+		var gs []Term
+		var whys []string
+		for _, alt := range ls.EmitAlts {
+			g, why := x.matchEmitsLoop(st, env, alt, li.ord, st.loopEvStart[li.ord])
+			gs = append(gs, g)
+			if why != "" {
+				whys = append(whys, why)
+			}
+		}
+		x.obligeEmits(st, fmt.Sprintf("emits:loop%d", li.ord), x.tagsFor(ls.EmitTags, x.spec.Tags), TTrue, Or(gs...), strings.Join(whys, " | "))
 	} else {
 		for i, e := range st.events {
 			if i >= st.loopEvStart[li.ord] && e.Loop == li.ord && x.isObservable(e) {
